@@ -16,7 +16,8 @@ Optional fields: 'ik' = how the constructor's `values` are passed ('list' (defau
 acts (ops in the format below; the cache number is ignored) on the very cache whose lookup called it (the RLock
 permits that); an act that raises ends the callback with that exception; lookups among the acts may miss and call
 on_miss again; 'depth' (default 3) is the nesting depth at which the callback raises ValueError instead.  An act whose
-name starts with '?' is wrapped in try / except Exception: pass by the callback.  'st': s makes the callback stateful: it
+name starts with '?' is wrapped in try / except Exception: pass by the callback; ['if_in' | 'if_not_in', 0, kt, act] makes the
+callback test `kt in cache` and perform `act` only if the answer is True / False (a callback that branches on what it sees).  'st': s makes the callback stateful: it
 returns a*k + b + s * (number of on_miss calls made on this cache before this one).
 Argument kinds of update / |=: 'dict' | 'list' | 'iter' | 'self' | 'map' (a mapping that is not a dict: keys() +
 __getitem__) | 'cache' (another cache of the world, op[3] = its number) | 'fail' (a generator that yields the pairs,
@@ -216,6 +217,12 @@ class Ref:
         With self.obs (the results the implementation's callback saw, in completion order) the result of the call
         is compared with what the reference cache answers at that moment."""
         name, a = op[0].lstrip('?'), op[2:]
+        if name in ('if_in', 'if_not_in'):
+            self.act(['in', 0, a[0]], depth, calls)
+            if (a[0] in self.vals) == (name == 'if_in'):
+                exc = self.act(a[1], depth, calls)
+                return None if a[1][0].startswith('?') else exc
+            return None
         exc, ret = None, ['none']
         if name == 'set':
             self.assign(a[0], a[1])
@@ -304,7 +311,7 @@ class C02(Property):
             'for its result (per key a program of set / item get / get / setdefault / del / pop / popitem / clear / update / |= / in / len / iteration / == '
             'calls: stores the key itself, prefetches or drops a neighbour, clears, fills the cache beyond capacity, looks other '
             'absent keys up - nested on_miss calls down to a depth guard of 1-3 -, raises after mutating, wraps some of its calls in '
-            'try / except, keeps state: its value depends on how often it was called on that cache; what each of its calls returned or '
+            'try / except, branches on a membership test, keeps state: its value depends on how often it was called on that cache; what each of its calls returned or '
             'raised is recorded and judged against the reference cache at that moment), '
             'constructor values passed as list / dict / iterator / mapping object, over max_size+1..+3 keys (strings, the '
             'aliases 1/1.0/True, or exotic hashables: None, (), \'\', tuples, frozensets, negative and huge ints, bytes), '
@@ -314,12 +321,12 @@ class C02(Property):
             'scripted scenarios (falsy on_miss results, stored None, removal of a None-valued newest/oldest key then overflow, '
             'lookups on a not-yet-full LRU, update/|= with exactly the current contents after a reorder, equal contents in a '
             'different dict order, every argument kind overflowing with duplicates, one cache read into another then both '
-            'diverging, keyword arguments overlapping E; plus the two families of the fixed findings: update(**kw) alone, a falsy callable as on_miss; get / setdefault / pop defaults identical to the stored value or to on_miss\'s result), 2304 scripted re-entrant '
-            'on_miss scenarios (14 program kinds x 3 result kinds x every kind of lookup, loading max_size+1 keys, refresh, '
+            'diverging, keyword arguments overlapping E; plus the two families of the fixed findings: update(**kw) alone, a falsy callable as on_miss; get / setdefault / pop defaults identical to the stored value or to on_miss\'s result), 2448 scripted re-entrant '
+            'on_miss scenarios (15 program kinds x 3 result kinds x every kind of lookup, loading max_size+1 keys, refresh, '
             'overflow, copy), 14 (thorough 60) big-'
             'capacity cases with bulk updates of 34-400 pairs, 300 adversarial scripts; (1) exhaustive: all histories of <=2 '
             'calls over a 43-call alphabet on 3 keys x max_size 1-3 x both classes x on_miss none / total / raising, and all '
-            'histories of <=2 calls over a 12-call alphabet x 13 re-entrant on_miss programs x max_size 1-2 (8112 cases); (2) 14k '
+            'histories of <=2 calls over a 12-call alphabet x 14 re-entrant on_miss programs x max_size 1-2 (8736 cases); (2) 14k '
             '(thorough 60k) sampled 3-5-call histories on pre-filled caches; (3) 1500 (6000) adversarial scripts of 13 kinds; '
             '(4) 8000 (105000) random histories of 4-40 (thorough up to 300) calls (45% of those with an on_miss, and 40% of the '
             'adversarial scripts with one, make it re-entrant with random programs). 3 cases of 4 run on the pointer-level Lean '
@@ -721,6 +728,8 @@ class C02(Property):
             ('guarded', table(lambda k: [['?del', 0, n1(k)], ['set', 0, k, 9], ['?getitem', 0, n2(k)], ['?pop', 0, n2(k)]])),   # try / except around its calls
             ('observe', table(lambda k: [['in', 0, k], ['len', 0], ['iter', 0], ['?popitem', 0], ['eq', 0, 'dict', [[n1(k), 4]]],
                                          ['set', 0, n1(k), 4], ['in', 0, n1(k)], ['?getitem', 0, n1(k)], ['popitem', 0]])),   # looks at the cache in between
+            ('branching', table(lambda k: [['if_not_in', 0, n1(k), ['set', 0, n1(k), 4]], ['if_in', 0, n2(k), ['?del', 0, n2(k)]],
+                                           ['if_in', 0, k, ['set', 0, k, 8]], ['if_not_in', 0, n2(k), ['getitem', 0, n2(k)]]])),   # decides by what it sees
             ('only0', {'0': [['set', 0, 0, 9], ['set', 0, 1, 8]]}),              # other keys: an ordinary loader
             ('empty', {}),                                                       # no acts at all: must equal the plain on_miss
         ]
@@ -801,6 +810,8 @@ class C02(Property):
                                                 [rng.choice(('eq', 'ne')), 0, 'dict', self.rand_pairs(rng, nk, True, 0, 2)])))
                     if rng.random() < 0.25:
                         acts[-1][0] = '?' + acts[-1][0]       # the callback catches whatever this call raises
+                    if rng.random() < 0.15:                   # ... or makes it depend on a membership test
+                        acts[-1] = [rng.choice(('if_in', 'if_not_in')), 0, rng.randrange(nk), acts[-1]]
                 prog[str(k)] = acts
         return prog
 
@@ -952,11 +963,18 @@ class C02(Property):
             if len(case['om']) == 2:
                 om += '/-/-'
             progs = []
-            for k in sorted(case['prog'], key=int):
-                acts = [self.op_tok([a[0].lstrip('?'), 0] + list(a[2:])) for a in case['prog'][k]]
-                if any(t is None for t in acts) or any(a[0].lstrip('?') not in ACT_NAMES for a in case['prog'][k]):
+            def act_tok(a):
+                if a[0] in ('if_in', 'if_not_in'):
+                    t = act_tok(a[3])
+                    return None if t is None or a[3][0] in ('if_in', 'if_not_in') else '@%d:%d:%s' % (a[0] == 'if_in', a[2], t)
+                if a[0].lstrip('?') not in ACT_NAMES:
                     return None
-                acts = [('?' if a[0].startswith('?') else '') + t for a, t in zip(case['prog'][k], acts)]
+                t = self.op_tok([a[0].lstrip('?'), 0] + list(a[2:]))
+                return None if t is None else ('?' if a[0].startswith('?') else '') + t
+            for k in sorted(case['prog'], key=int):
+                acts = [act_tok(a) for a in case['prog'][k]]
+                if any(t is None for t in acts):
+                    return None
                 progs.append('%s=%s' % (k, '+'.join(acts) or '-'))
             om += '/%s/%d' % ('~'.join(progs) or '-', case.get('depth', DEFAULT_DEPTH))
         toks = ['1' if case['cls'] == 'LRU' else '0', str(case['max']), om, str(case['nk']),
@@ -999,16 +1017,25 @@ class C02(Property):
                         raise ValueError('on_miss nested too deeply')
                     nest[0] += 1
                     try:
-                        for j, act in enumerate(prog.get(str(k), ())):
+                        def perform(sj, act):
                             guarded = act[0].startswith('?')
                             try:
-                                nested.append(do(cur[1] + 7 * (j + 1), [act[0].lstrip('?')] + list(act[1:]), cur[0]))
+                                nested.append(do(sj, [act[0].lstrip('?')] + list(act[1:]), cur[0]))
                             except CaseTimeout:
                                 raise
                             except Exception as e:
                                 nested.append(['exc', exc_name(e)])
                                 if not guarded:
                                     raise
+                        for j, act in enumerate(prog.get(str(k), ())):
+                            sj = cur[1] + 7 * (j + 1)
+                            if act[0] in ('if_in', 'if_not_in'):
+                                seen = do(sj, ['in', 0, act[2]], cur[0])
+                                nested.append(seen)
+                                if seen[1] == (act[0] == 'if_in'):
+                                    perform(sj + 3, act[3])
+                            else:
+                                perform(sj, act)
                     finally:
                         nest[0] -= 1
                 if k in ke:
